@@ -3,11 +3,17 @@ PID = "C14"
 RULE = ("N and 2N sequential or overlapping logical connections (application or target closing first) through an in-process pair, goroutines and "
         "file descriptors counted at quiescent points before, after N and after 2N; then the physical session is ended by a carrier cut or by "
         "a garbage frame and the process's CPU time over an idle second is measured; distinct_nontrivial = distinct (carrier, N, mode)")
+EXPLANATION_DNS = (" DNS tunnel connection (Queue/Close.v, shared with C17): in every reachable state a closed end has no reader parked on it - "
+                   "whichever operation closed it released the reader in the same step; the shapes without in.Close() in closeConnection, in the "
+                   "sweep and in the client's Close are refuted for every continuation. Run against the real objects (c17q, c17p).")
 EXPLANATION = ("Props/C14.v: every PipeData execution ends with all three goroutines returned when the result channels have room for one value "
                "(capacities read from the source; the unbuffered variant is refuted by witness), and the accept loop exits on a dead session "
-               "unless errors are answered with continue (read from the source). The scenarios measure growth per connection and idle CPU.")
-TRUSTED = ["runtime.NumGoroutine / getrusage / /proc/self/fd as measurements", "kernel socket states (TIME_WAIT) are not observed"]
+               "unless errors are answered with continue (read from the source). The scenarios measure growth per connection and idle CPU.") + EXPLANATION_DNS
+TRUSTED = ["runtime.NumGoroutine / getrusage / /proc/self/fd as measurements", "kernel socket states (TIME_WAIT) are not observed",
+           "DNS close model (Queue/Close.v): one reader per end, operations atomic; a Write parked in the out-queue is not modelled"]
 RUN_TIMEOUT = 3000
+
+from . import c17 as _c17
 
 
 def cases(tier, rng):
@@ -44,6 +50,20 @@ def cases(tier, rng):
     cs.append({"line": "c14 tcp 1 read-timeout", "key": "c14 read-timeout", "model": False, "tags": {"carrier": "memory", "n": 1, "mode": "read-timeout"}})
     if thorough:
         cs.append({"line": "c14 tcp 500 app-closes", "key": "c14 tcp 500", "tags": {"carrier": "tcp", "n": 500, "mode": "app-closes"}})
+    # the DNS tunnel connection's close protocol on the real objects, compared token for token with the model: a reader parked on either end
+    # when the end is closed in every way (application, peer's request, expiry, the poll goroutine told BADCONN / giving up)
+    for ops in (["sr 8", "sc"], ["sr 8", "sq"], ["sr 8", "sx"], ["cr 8", "cc"], ["sr 0", "sc", "sr 0"], ["cr 0", "cc", "cr 0"],
+                ["sr 8", "sx", "sc", "sr 1"], ["sr 3", "sa #0102", "sr 3", "sq", "sr 3"], ["cr 3", "ca #0102", "cr 3", "cc", "cr 3"]):
+        c = _c17.q_case(ops, "fixed")
+        c["tags"]["mode"] = "dns-close"
+        cs.append(c)
+    for _ in range(600 if thorough else 60):
+        c = _c17.q_case(_c17.gen_q(rng, 24), "random")
+        c["tags"]["mode"] = "dns-close"
+        cs.append(c)
+    for cn, sn, fates in ((4, 4, ["evclose"]), (4, 4, ["evexpire"]), (4, 4, ["ok #0102", "evclose"])) + (((2, 2, ["evexpire", "evforget"]),) if thorough else ()):
+        line = "c17p %d %d %d %s 3" % (cn, sn, len(fates), " ".join(fates))
+        cs.append({"line": line, "key": line, "tags": {"carrier": "dns-poll", "n": len(fates), "mode": "dns-close"}})
     return cs
 
 
@@ -60,6 +80,8 @@ def project(impl, n):
 
 
 def oracle(case, impl):
+    if case["line"].startswith("c17q ") or case["line"].startswith("c17p "):
+        return _c17.oracle(case, impl)
     t = case["tags"]
     if t["mode"] == "server-away":
         p = impl.split()
@@ -111,6 +133,8 @@ def oracle(case, impl):
 
 
 def agree(case, impl, model):
+    if case["line"].startswith("c17q ") or case["line"].startswith("c17p "):
+        return _c17.agree(case, impl, model)
     pr = project(impl, case["tags"]["n"])
     m = model.split()
     if pr is None or len(m) < 6:
@@ -128,7 +152,9 @@ META = {
     "level_text": "Partial: Coq theorems over transition-system models of PipeData (two copy loops, one selector, result channels with the "
                   "capacities read from the source) and of the stream accept loop: all goroutines of a finished connection return, and a dead "
                   "session ends the loop; the defective variants (unbuffered channels, continue on error) are refuted by witnesses. Goroutine, "
-                  "descriptor and CPU footprints are measured over N and 2N connections and after abrupt session ends.",
+                  "descriptor and CPU footprints are measured over N and 2N connections and after abrupt session ends. DNS tunnel connection: a "
+                  "model of the close protocol (shared with C17) proves that a reader parked in Read is released by whatever closes its end, for "
+                  "every operation sequence; it is run token for token against the real objects.",
     "level_note": "Measurements (goroutine counts, rusage) stand for 'footprint'; kernel socket states are not observed.",
     "technique": "Coq proofs by finite-state exploration of LTS models + footprint measurements at quiescent points",
 }
